@@ -107,12 +107,99 @@ def step_orders(sh, params):
             sh.count('step_orders')
 
 
+def dependency_orders(sh, params, only=None):
+    """exhaustive interleavings of a writer that declares a dependency (readCurrent) with a writer of the object it depends on:
+    A = begin, declare(dep), write(x), commit;  B = begin, write(dep), commit.  A's commit must fail exactly when B's commit fell
+    between A's begin and A's commit.  The dependency is declared on a loaded object or on a ghost that was never loaded."""
+    import os
+    import transaction
+    import ZODB
+    import ZODB.MappingStorage
+    import ZODB.DemoStorage
+    from zv import recfs, objs
+    from ZODB.POSException import ConflictError
+    FSM = recfs.install()
+    recfs.LOG.enabled = False
+    progs = [['begin', 'declare', 'write', 'commit'], ['begin', 'write', 'commit']]
+
+    def orders(prefix, rest):
+        if not any(rest):
+            yield prefix
+            return
+        for c in range(2):
+            if rest[c]:
+                r2 = list(rest)
+                r2[c] = rest[c][1:]
+                yield from orders(prefix + [(c, rest[c][0])], r2)
+    allo = list(orders([], progs))
+    n = 0
+    todo = [(o, v) for o in allo[params['shard'] % 4::4] for v in ('loaded', 'ghost-never-loaded', 'ghost-after-minimize')]
+    if only is not None:
+        todo = [([tuple(x) for x in only['dependency_order']], only['variant'])]
+    for order, variant in todo:
+        if True:
+            kind = ['file', 'mapping', 'demo'][n % 3] if only is None else only['kind']
+            n += 1
+            d = sh.fresh_dir('dep')
+            st = (FSM.FileStorage(os.path.join(d, 'D.fs')) if kind == 'file' else ZODB.MappingStorage.MappingStorage() if kind == 'mapping'
+                  else ZODB.DemoStorage.DemoStorage())
+            with ZODB.DB(st).transaction() as c:
+                c.root()['x'] = objs.Plain()
+                c.root()['dep'] = objs.Plain()
+            db = ZODB.DB(st)              # a DB object of its own: its connections are new, no object has been loaded in them
+            tms = [transaction.TransactionManager() for _ in range(2)]
+            conns = [db.open(tm) for tm in tms]
+            pos = {}
+            case = {'dependency_order': [list(x) for x in order], 'variant': variant, 'kind': kind}
+            for k, (ci, stp) in enumerate(order):
+                pos[(ci, stp)] = k
+                c = conns[ci]
+                if stp == 'begin':
+                    tms[ci].begin()
+                    c.root()['x'].tok
+                elif stp == 'declare':
+                    dep = c.root()['dep']
+                    if variant == 'loaded':
+                        dep.tok
+                    elif variant == 'ghost-after-minimize':
+                        dep.tok
+                        c.cacheMinimize()
+                    c.readCurrent(dep)
+                elif stp == 'write':
+                    o = c.root()['x' if ci == 0 else 'dep']
+                    o.base, o.tok = o.tok, 'w%d' % ci
+                else:
+                    try:
+                        tms[ci].commit()
+                        ok = True
+                    except ConflictError:
+                        ok = False
+                        tms[ci].abort()
+                    if ci == 1 and not ok:
+                        sh.violation('c03:%s:dependency-order:writer-of-the-dependency-refused' % kind, {'order': order, 'variant': variant}, case)
+                    if ci == 0:
+                        changed = pos[(0, 'begin')] < pos.get((1, 'commit'), 99) < k
+                        sh.count('dependency_orders_checked')
+                        if changed:
+                            sh.count('dependency_orders_with_the_dependency_changed')
+                        if ok and changed:
+                            sh.violation('c03:%s:dependency-order:commit-accepted-although-a-declared-dependency-changed:%s' % (kind, variant),
+                                         {'order': order, 'variant': variant}, case)
+                        elif not ok and not changed:
+                            sh.violation('c03:%s:dependency-order:commit-refused-although-the-dependency-is-current:%s' % (kind, variant),
+                                         {'order': order, 'variant': variant}, case)
+            for c in conns:
+                c.close()
+            db.close()
+
+
 def run_shard(params):
     from zv.harness import Shard
     import logging
     logging.disable(logging.CRITICAL)
     pre = Shard(dict(params, budget_s=params['budget_s']))
     step_orders(pre, params)
+    dependency_orders(pre, params)
     res = _c.run_shard(dict(params, budget_s=max(5, params['budget_s'] - (__import__('time').time() - pre.t0))), which='c03')
     res['violations'] = pre.violations + res['violations']
     for k, v in pre.counters.items():
@@ -124,6 +211,11 @@ def replay(case, scratch):
     from zv import mvccload
     import logging
     logging.disable(logging.CRITICAL)
+    if 'dependency_order' in case:
+        from zv.harness import Shard
+        sh = Shard({'scratch': scratch, 'budget_s': 600})
+        dependency_orders(sh, {'shard': 0, 'seed': 0}, only=case)
+        return sh.violations
     if 'step_order' in case:
         return [{'mechanism': 'c03:step-order:replay-not-supported-rerun-check', 'detail': case, 'case': case}]
     kw = dict(case.get('kw', {}))
